@@ -163,11 +163,26 @@ def compute_generation_log(processing_log: List[dict]) -> GenerationLog:
                 executed_action = None
 
             elif event_type in ["InputRailFinished", "OutputRailFinished"]:
-                activated_rail.finished_at = event["timestamp"]
-                activated_rail.duration = (
-                    activated_rail.finished_at - activated_rail.started_at
-                )
-                activated_rail = None
+                # The rail that finished is not necessarily the current one: when a rail
+                # stops and its message goes through the output rails, those open and
+                # close their own records while the stopped rail remains open.
+                finished_rail = activated_rail
+                for rail in reversed(generation_log.activated_rails):
+                    if (
+                        rail.type in ["input", "output"]
+                        and rail.finished_at is None
+                        and rail.name == event_data.get("flow_id")
+                    ):
+                        finished_rail = rail
+                        break
+
+                if finished_rail is not None:
+                    finished_rail.finished_at = event["timestamp"]
+                    finished_rail.duration = (
+                        finished_rail.finished_at - finished_rail.started_at
+                    )
+                if finished_rail is activated_rail:
+                    activated_rail = None
 
             elif event_type == "InputRailsFinished":
                 input_rails_finished_at = event["timestamp"]
@@ -181,13 +196,22 @@ def compute_generation_log(processing_log: List[dict]) -> GenerationLog:
     # If at the end of the processing we still have an active rail, it is because
     # we have hit a stop. In this case, we take the last timestamp as the timestamp for
     # finishing the rail.
-    if activated_rail is not None:
+    if activated_rail is not None and activated_rail.finished_at is None:
         activated_rail.finished_at = last_timestamp
         activated_rail.duration = activated_rail.finished_at - activated_rail.started_at
 
         if activated_rail.type in ["input", "output"]:
             activated_rail.stop = True
             activated_rail.decisions.append("stop")
+
+    # The same holds for any earlier input/output rail that never finished, e.g., an input
+    # rail that stopped and whose message was then processed by the output rails.
+    for rail in generation_log.activated_rails:
+        if rail.type in ["input", "output"] and rail.finished_at is None:
+            rail.finished_at = last_timestamp
+            rail.duration = rail.finished_at - rail.started_at
+            rail.stop = True
+            rail.decisions.append("stop")
 
     # If we have input rails, we also record the general stats
     if input_rails_started_at:
